@@ -106,6 +106,28 @@ CLAIMED = {
   ref="DESIGN.md sections 4 C20 and 9.8"),
 }
 
+# rules added after the first build (independent seeded changes, refactoring experiments); DESIGN.md 9.3
+ADDED = {
+ "C01": "Also: a fresh manager is published only after ruling out an existing one for the key; a pooled manager's key is zeroed; GetOrNewDB is check-then-act under one mutex.",
+ "C02": "Also: RemoveLock keeps the LockId index in step; cancelWaitLock selects only not-yet-answered queue entries.",
+ "C04": "Also: the FIFO-to-priority-ring switch condition and the arrival-order migration; the priority bypass is decided on path facts whether or not a helper holds it.",
+ "C05": "Also: sweepers re-arm an entry only after testing its tombstone clear.",
+ "C06": "Also: the long-table entry is removed under the deadline read before the update; re-arm only after the tombstone test; recycled long-wait buckets are re-initialised.",
+ "C07": "Also: log-file lists are snapshot-first; UnLock clears the persisted mark only with removal.",
+ "C08": "Also: values buffered only with records; readers never return io.ReadFull's error unmapped; oversized values written directly only with the record buffer empty.",
+ "C09": "Also: receive ring >= queue capacity + 2; live append file touched only under the append mutex (a reproduced race was repaired); the ring examines all 16 id bytes.",
+ "C10": "Also: the follower's only local answer needs the concurrent-check flag and Timeout == 0; replayed holds are marked persisted independent of role.",
+ "C11": "Also: a new ack table is recounted after publication; the queued timeout stays armed on the ack-pending wake-up path.",
+ "C12": "Also: the outstanding-commit marker is cleared only at a closed list of points.",
+ "C13": "Also: parser upper bounds and the reply buffer's headroom by linear entailment; the recycled text reply is fully reassigned; fixed-capacity table indexes.",
+ "C14": "Also: parser cursors (two reproduced chunking defects repaired), key/id normaliser totality, converters define every wire field of the pooled command.",
+ "C15": "Also: no aliasing of the stored value into results; the pre-operation value is read before it is cleared.",
+ "C16": "Also: replay quiescence is decided on the channels' queue counters (a reproduced start-up compaction race was repaired); nothing retired after publishing may be the published snapshot; log-file lists snapshot-first.",
+ "C17": "Also: queue compaction and migration return the reference of every entry they drop.",
+ "C18": "Also: AddProxy succeeds only after tracking the proxy.",
+ "C19": "Also: acquire methods report success only for result 0; the client reader decodes every reply into a fresh object.",
+}
+
 NA = {
 }
 
@@ -122,7 +144,7 @@ def main():
                 "evidence_file": "/verif/evidence/%s.json" % i,
                 "replay_cmd_template": "cat {path}",
                 "engine": "slockcheck",
-                "level_claimed": {"category": "other", "text": c["text"], "design_ref": c["ref"]},
+                "level_claimed": {"category": "other", "text": (c["text"] + (" " + ADDED[i] if i in ADDED else "")), "design_ref": c["ref"] + " and 9.3"},
                 "level_note": c["note"],
                 "technique": c["technique"],
             })
